@@ -222,6 +222,13 @@ class FnScan:
             if isinstance(dflt, (ast.List, ast.Dict, ast.Set, ast.ListComp, ast.DictComp, ast.SetComp)) or \
                     (isinstance(dflt, ast.Call) and isinstance(dflt.func, ast.Name) and dflt.func.id in ("list", "dict", "set", "defaultdict", "OrderedDict")):
                 self.site("mutable-default", text(dflt), self.node)
+            elif isinstance(dflt, ast.Call):
+                # an object built ONCE, when the function is defined, and shared by every call that leaves the argument out
+                # (constructors of values that cannot change are not sites)
+                fn_ = text(dflt.func)
+                if fn_.split(".")[-1] not in ("frozenset", "tuple", "str", "bytes", "int", "float", "bool", "complex", "timedelta", "date", "time", "datetime",
+                                              "timezone", "Decimal", "Fraction", "compile", "object", "namedtuple", "MappingProxyType", "TypeVar"):
+                    self.site("mutable-default", text(dflt), self.node)
         for n in self.body_nodes():
             if isinstance(n, (ast.Global, ast.Nonlocal)):
                 self.site("global" if isinstance(n, ast.Global) else "nonlocal", ",".join(n.names), n)
@@ -365,6 +372,35 @@ def alarming(s):
     if what == "self" and s["file"] == "ofxtools/Types.py":
         return True          # the converters are descriptors: one instance serves every model object
     return False
+
+
+def run_census_of(rep, repo, relfiles, only_kinds=("global", "nonlocal", "memo-decorator", "mutable-default")):
+    """the same census over whole files outside C17's scope, reported under rep.prop: the kinds of site that make two calls - or
+    two threads - share an object whoever the caller is (module-level rebinding, memo decorators, default-argument objects)"""
+    allow = load_allow()
+    listed = {e["site"] for e in allow["sites"]}
+    n = 0
+    for rel in relfiles:
+        sites, nfun = scan_file(repo, rel, None)
+        n += nfun
+        seen = set()
+        for s_ in sites:
+            if s_["kind"] not in only_kinds:
+                continue
+            k = key(s_)
+            if k in seen:
+                continue
+            seen.add(k)
+            full = f"{rep.prop}/census:{k}"
+            if k in listed or any(match_rule(r, s_) for r in allow["rules"]):
+                rep.ok(full, "census", 0.0, "frame", f"{s_['file']}:{s_['function']}")
+            else:
+                rep.fail(full, "census", f"an object shared by every call, not admitted: {s_['kind']} {s_['target']} at {s_['file']}:{s_['line']}", 0.0, "frame", f"{s_['file']}:{s_['function']}")
+                rep.violation(full, {"clause": "no object is shared between calls (census)", "site": s_,
+                                     "note": "state that every call - and every thread - of this function shares, absent from census_allow.json"}, no_input=True)
+    rep.ok(f"{rep.prop}/census:scanned-{'+'.join(os.path.basename(r) for r in relfiles)}", "census", 0.0, "frame", "census", detail=f"{n} functions")
+    if n < 20:
+        rep.engine_error(f"census of {relfiles} scanned only {n} functions")
 
 
 def run_census(rep, repo):
